@@ -192,6 +192,13 @@ pub fn text_strategy() -> BoxedStrategy<Text> {
         // the fraction that makes max: .584007913129639935
         1 => (0u64..3).prop_map(|d| Some(format!("{}", 584007913129639934u64 + d))),
         1 => Just(Some("999999999999999999".to_string())),
+        // fraction lengths around the widths of the integer types a length may be squeezed into
+        // (256 = u8, 65536 = u16, and their doubles), mostly leading zeros so that the digits stay small
+        1 => (prop_oneof![Just(256usize), Just(512), Just(65536), Just(131072)], -2i32..=19, digits(3), 0usize..3).prop_map(|(w, j, d, t)| {
+            let total = (w as i64 + j as i64).max(1) as usize;
+            let zeros = total.saturating_sub(d.len() + t);
+            Some(format!("{}{}{}", "0".repeat(zeros), d, "0".repeat(t)))
+        }),
     ];
     let canonical = (ints, fracs).prop_map(|(i, f)| match f {
         None => i,
